@@ -316,7 +316,7 @@ theorem listS3_selection (glob : String → String → Bool) (ch : Nat → Nat) 
         unfold metaKey
         rw [startsWith_append_left, hid, category_mkId _ hns, Bool.eq_iff_iff, startsWith_mkId_iff _ hns hq]
         simp
-      simp only [Function.comp, relevantB, windowPred, Bool.and_self, Bool.true_and, h1, matchB]
+      simp only [Function.comp, relevantB, windowPred_def, Bool.and_self, Bool.true_and, h1, matchB]
       exact Bool.and_comm _ _
     rw [List.filter_congr hpred]
     rfl
